@@ -20,6 +20,12 @@ CLAIMED = {
  "C04": dict(text="Lean theorems for any antisymmetric transitive comparator: rank 0 iff non-dominated, rank r+1 iff all dominators have rank <= r and one has rank r, termination of peeling, contiguous ranks; truncation by any total transitive key returns exactly min(k,n) distinct members and never keeps worse-than-discarded (rank, then crowding); split/prune specifications. Correspondence: ranks exact, crowding distance Float bit-exact, ids of every cut for all k",
              note="numeric value of the crowding distance is tied by bit-exact correspondence and an exact-fraction oracle, not by a theorem (partial for that clause)",
              tech="Lean 4 proof (induction over peeling rounds / merge sort lemmas) + correspondence", ref="§5 C04"),
+ "C14": dict(text="Lean invariant theorem for the adaptive grid archive as a state machine, generic in the cell arithmetic: in every reachable state size <= capacity, members mutually non-dominated, reported occupancy of every cell = number of members in that cell; dominated newcomer unchanged, fitting newcomer added with exactly its dominated members leaving, overflow drops exactly one from a cell of maximal occupancy; size lemmas for sort-and-truncate survival. State-machine correspondence (flag, members, bounds, density after every add) incl. exhaustive short histories; population/swarm/leader sizes checked at every step of real runs",
+             note="find_index arithmetic is a parameter of the theorems (tied by the Float instance of the driver); population-size clauses for algorithms other than sort-and-truncate ones are checked on traces only",
+             tech="Lean 4 proof (state-machine invariant by induction over histories) + state-machine correspondence + run traces", ref="§5 C14"),
+ "C08": dict(text="Lean theorems about the run loop for any state/step with >= 1 counted evaluation per step: terminates within N steps, stops exactly at the first step reaching the budget (overshoot < one step), zero budget evaluates nothing, consecutive calls get a fresh budget and compose; evaluate_all bookkeeping (calls = unevaluated members <= counter increment). Trace refinement: per-step counter increments and batches of real runs of all 16 algorithm configurations replayed through the model loop",
+             note="MaxTime / user conditions out of scope; the per-algorithm fact 'every step counts >= 1 evaluation' is observed on traces, not proved per algorithm",
+             tech="Lean 4 proof (induction over the loop) + trace refinement of real runs", ref="§5 C08"),
 }
 PENDING = {}
 def main():
